@@ -37,9 +37,11 @@ fn main() {
         }
         "run" => {
             let stdin = io::stdin();
+            let lines: Vec<String> = stdin.lock().lines().map(|l| l.expect("read stdin")).collect();
+            let case_end = |from: usize| lines[from..].iter().position(|l| l.starts_with("#case")).map_or(lines.len(), |k| from + k);
             let mut st = (stream.new_state)();
-            for line in stdin.lock().lines() {
-                let line = line.expect("read stdin");
+            st.prefetch(&lines[0..case_end(0)]);
+            for (i, line) in lines.iter().enumerate() {
                 let ws: Vec<&str> = line.split_whitespace().collect();
                 if ws.is_empty() {
                     writeln!(out).unwrap();
@@ -47,6 +49,7 @@ fn main() {
                 }
                 if ws[0] == "#case" {
                     st = (stream.new_state)();
+                    st.prefetch(&lines[i + 1..case_end(i + 1)]);
                     writeln!(out, "case").unwrap();
                     continue;
                 }
